@@ -439,6 +439,24 @@ func runSched(col *Collector, focus, tier string, seed int64) {
 		}
 		add(c, "random", []float64{0, 0.5, 1}[i%3], -1)
 	}
+	// long passes: most stages carry a condition (an external command, ~1 ms each), so that one pass of the loop
+	// lasts long enough for tasks to finish in the middle of it - while the loop has already visited some of their
+	// dependants and not yet others
+	nslow := 0
+	if focus == "C04" || focus == "C01" {
+		nslow = 600
+		if tier == "thorough" {
+			nslow = 4000
+		}
+	}
+	for i := 0; i < nslow; i++ {
+		n := 6 + rng.Intn(3)
+		kinds := make([]byte, n)
+		for j := range kinds {
+			kinds[j] = []byte{'t', 't', 't', 'T', 's', 'c'}[rng.Intn(6)]
+		}
+		add(mk(n, randDag(n), kinds), "slow-pass", []float64{0.5, 1}[i%2], -1)
+	}
 	// cancelled runs: a stage whose condition cannot be evaluated, or an external Cancel at a quiescent point
 	for i := 0; i < ncancel; i++ {
 		n := 2 + rng.Intn(4)
